@@ -18,6 +18,7 @@ from ..core import CaseResult
 
 PROP = "C19"
 LEVEL = "model_checking"
+SECOND_SCHEDULE = 0  # stride of the reverse-order history pass (0 = off, 1 = every case)
 RULE = ("operations: addpar (name x value x (vary,can_vary) x stepsize), set, set_parameters (0,1,2 keys), set_varylist (every ordered subset of "
         "names, inadmissible ones must raise AssertionError and leave the state unchanged), set_variable_values (right and wrong length), "
         "update_yourself / update_other against objects holding subsets of the names, save-then-load into a fresh object, save-then-load "
